@@ -83,7 +83,7 @@ def expand_class_aliases(tree: ast.Module) -> None:
     ast.fix_missing_locations(tree)
 
 
-NORMALISED_MODULES = {"coco/b09/visitors.py", "coco/b09/compiler.py", "coco/b09/error_handler.py", "coco/decb_to_b09.py"}
+NORMALISED_MODULES = {"coco/b09/visitors.py", "coco/b09/compiler.py", "coco/b09/error_handler.py", "coco/decb_to_b09.py", "coco/b09/elements.py"}
 
 
 class Module:
